@@ -184,6 +184,21 @@ static void print_summary() {
 static void viol_sink(const char *sig, const char *msg) {
     std::string s = "VIOL {\"sig\":\"" + mj::esc(sig) + "\",\"msg\":\"" + mj::esc(msg) + "\",\"seed\":" + std::to_string(g_cur_seed) +
                     ",\"idx\":" + std::to_string(g_cur_idx) + ",\"steps\":" + std::to_string(sim::steps()) + ",\"ehash\":\"" + std::to_string(sim::current_event_hash()) + "\",\"events\":" + events_text(200);
+    if (g_cur_plan && g_cur_plan->get("_trace_tid", -1) >= 0) {
+        // debugging aid: the last events of one simulated thread, from the full trace (plan cfg _trace=1, _trace_tid=N)
+        int want = (int)g_cur_plan->get("_trace_tid", -1);
+        const std::vector<sim::Event> &full = sim::full_trace();
+        std::vector<const sim::Event *> sel;
+        for (auto &e : full) if (e.tid == want) sel.push_back(&e);
+        s += ",\"tid_events\":[";
+        size_t st = sel.size() > 80 ? sel.size() - 80 : 0;
+        for (size_t i = st; i < sel.size(); i++) {
+            char b[160];
+            snprintf(b, sizeof b, "%s\"#%llu %s obj%d r=%lld\"", i > st ? "," : "", (unsigned long long)sel[i]->seq, sim::point_kind_name(sel[i]->kind), sel[i]->obj, (long long)sel[i]->result);
+            s += b;
+        }
+        s += "]";
+    }
     if (g_cur_plan) s += ",\"plan\":" + plan_json(*g_cur_plan, true, true);
     s += "}";
     puts(s.c_str());
